@@ -62,6 +62,9 @@ class Layer:
             self.fired = True
             if act[0] == 'crash':
                 os._exit(137)
+            if isinstance(act[2], str):
+                # not an I/O error but an asynchronous exception arriving while the operation is about to run (Ctrl-C)
+                raise {'KeyboardInterrupt': KeyboardInterrupt, 'MemoryError': MemoryError}[act[2]]('injected')
             raise OSError(act[2], os.strerror(act[2]) + ' (injected)', name)
 
     def after(self, kind: str, path: Any) -> None:
